@@ -179,7 +179,7 @@ impl Check for MigrationCheck {
         }
         // C19 buggify: one node answers PTTL with a fixed value on some runs
         let pttl_override: Value = if ttl_mode && index % 3 == 2 {
-            json!(*rng.pick(&["0", "1", "2", "999", "9223372036854775807", "-1", "abc"]))
+            json!(*rng.pick(&["0", "1", "2", "999", "2147483648", "4294967297", "9223372036854775807", "-1", "-2", "-2", "abc"]))
         } else {
             Value::Null
         };
@@ -190,6 +190,7 @@ impl Check for MigrationCheck {
                 "max_latency_ms": *rng.pick(&[1u64, 2, 3, 5, 8, 15]),
                 "backend_conn_num": rng.range(1, 3),
                 "active_redirection": rng.chance(1, 3),
+                "max_redirections": rng.range(2, 4),
                 "scan_count": *rng.pick(&[1u64, 2, 4, 16]),
                 "scan_interval_us": *rng.pick(&[0u64, 500, 2000, 20000]),
                 "migration_limit": *rng.pick(&[0u64, 1, 2]),
@@ -198,6 +199,10 @@ impl Check for MigrationCheck {
                 "scale_at_ms": scale_at,
                 "scan_dup": rng.chance(1, 4),
                 "pttl_override": pttl_override,
+                // heavy-tailed latency: lets a message on one connection be overtaken by a whole
+                // exchange on others
+                "spike_pm": *rng.pick(&[0u64, 0, 20, 60, 150]),
+                "spike_factor_max": *rng.pick(&[8u64, 20, 40]),
             },
             "keys": keys,
             "ops": ops,
@@ -230,14 +235,14 @@ impl Check for MigrationCheck {
         Meta {
             level: "exploration",
             rule: if self.prop == "C03" {
-                "plan = cluster of 1-3 chunks scaled out or in by one chunk while 2-4 clients issue 80-220 string/counter/list operations (incl. DEL/LPOP/RPOP) on 16-48 keys through random proxies, following MOVED; real coordinator loops drive metadata and commit. Swarm: latency 1-15 ms, backend_conn_num 1-3, active redirection, scan_count 1-16, scan interval, migration_limit, compressed metadata, SCAN duplicates. Non-trivial = migration committed AND >=1 write and >=1 deleting command were acknowledged while a migration was in flight; distinct = distinct (delivery-schedule hash, end state hash)."
+                "plan = cluster of 1-3 chunks scaled out or in by one chunk while 2-4 clients issue 80-220 string/counter/list operations (incl. DEL/LPOP/RPOP) on 16-48 keys through random proxies, following MOVED; real coordinator loops drive metadata and commit. Swarm: latency 1-15 ms with a heavy tail (0-15% of messages x4..x40, per connection FIFO), backend_conn_num 1-3, active redirection, scan_count 1-16, scan interval, migration_limit, compressed metadata, SCAN duplicates. Non-trivial = migration committed AND >=1 write and >=1 deleting command were acknowledged while a migration was in flight; distinct = distinct (delivery-schedule hash, end state hash)."
             } else {
-                "same plan with a TTL key population (30 ms .. 1 h and persistent); every third run one source node answers PTTL with a buggified value {0,1,2,999,2^63-1,-1,malformed}. Non-trivial = >=1 RESTORE of a key with a remaining TTL was matched with its PTTL reading."
+                "same plan with a TTL key population (30 ms .. 1 h, 30 days and 5e9 ms i.e. beyond 2^31/2^32 ms, and persistent); every third run the source nodes answer PTTL with a buggified value {0,1,2,999,2^31,2^32+1,2^63-1,-1,-2,malformed}. Non-trivial = >=1 RESTORE of a key with a remaining TTL was matched with its PTTL reading."
             },
             real: vec!["broker::MemBrokerService", "coordinator::CoordinatorService loops (detect, proxy sync, migration sync)", "proxy::* (Session, SharedForwardHandler, MetaManager, blocking queue, backend senders, migration_backend)", "migration::* (scan_task, scan_migration, manager)", "replication::*", "common::proto encodings"],
             stubs: vec!["TCP (SimNet packet-level channels)", "Redis (SimRedis model)", "HTTP coordinator->broker hop (direct service calls with serde_json round trip)", "RedisClient implementations (SimRedisClient incl. timeout/stale behaviour)"],
             assumptions: vec!["SimRedis is a faithful model of the Redis commands used", "tokio current_thread runtime with paused clock; message-level interleavings only"],
-            fault_kinds: vec!["msg_delay_reorder", "scan_duplicates", "pttl_buggify"],
+            fault_kinds: vec!["msg_delay_reorder", "latency_spike", "scan_duplicates", "pttl_buggify"],
         }
     }
 }
@@ -274,9 +279,11 @@ async fn run_migration(prop: &'static str, plan: &Value, want_sample: bool) -> R
     let start_chunks = cfg["start_chunks"].as_u64().unwrap_or(1) as usize;
     let target_chunks = cfg["target_chunks"].as_u64().unwrap_or(2) as usize;
     let net = Net::new(seed, cfg["max_latency_ms"].as_u64().unwrap_or(3));
+    net.set_latency_spikes(cfg["spike_pm"].as_u64().unwrap_or(0), cfg["spike_factor_max"].as_u64().unwrap_or(4));
     let pp = ProxyParams {
         backend_conn_num: cfg["backend_conn_num"].as_u64().unwrap_or(2) as usize,
         active_redirection: cfg["active_redirection"].as_bool().unwrap_or(false),
+        max_redirections: cfg["max_redirections"].as_u64().unwrap_or(4) as usize,
         ..Default::default()
     };
     let bcfg = BrokerCfg { ordered: false, migration_limit: cfg["migration_limit"].as_u64().unwrap_or(0), quorum: 1, ttl: 60, hosts: vec![1; n_proxies] };
